@@ -17,6 +17,30 @@ from tracev import reset_event, validate_trace
 from vlib import canon, run_harness, run_harness_stable_day, short_hash
 
 BATCH = 40
+# collect(): run another property's generator part only and hand its replay items over (C08 / C16 / C19 re-use the cases
+# TLC enumerates for the other properties instead of keeping a second copy of the generators)
+CAPTURE = None
+
+
+def collect(module, rep):
+    """the replay items (abstract line, rendered text, configuration, expectation from TLC) of another property's generator"""
+    global CAPTURE
+    import vlib
+    sub = vlib.Report(rep.pid, rep.tier, rep.seed)
+    CAPTURE = []
+    vlib.SKIP_MC = True
+    try:
+        module.run(sub)
+        items = CAPTURE
+    finally:
+        CAPTURE = None
+        vlib.SKIP_MC = False
+    for r in sub.tlc_runs:
+        if r["cases_emitted"]:
+            rep.states += r["distinct_states"]
+            rep.transitions += r["states_generated"]
+            rep.tlc_runs.append(r)
+    return items
 
 
 def _group_key(it):
@@ -109,6 +133,9 @@ def project_extra(slot, item):
 
 
 def replay(rep, items, tag, match=None):
+    if CAPTURE is not None:
+        CAPTURE.extend(items)
+        return []
     res = execute_items(items, tag)
     match = match or compare.match_slot
     for it, (slot, st, _day) in zip(items, res):
@@ -136,6 +163,8 @@ def default_class(kind, feat):
 
 def trace(rep, items, tag):
     """items need no 'expected': TLC computes it. Returns number of disagreements."""
+    if CAPTURE is not None:
+        return 0
     res = execute_items(items, tag)
     events = []
     index = []
